@@ -53,6 +53,7 @@ def make_array(d):
 class Env:
     def __init__(self):
         self.t = {}
+        self.keep = []
 
     def operand(self, o):
         if isinstance(o, str):
@@ -247,7 +248,19 @@ def families(env):
         else:
             hit = [m for m in names if env.t[m] is bt]
             base[n] = hit[0] if hit else "internal"
-    return {"share": share, "base": base}
+    gshare = []
+    grads = {}
+    for n in names:
+        try:
+            grads[n] = env.t[n].grad
+        except Exception:
+            grads[n] = None
+    for i, a in enumerate(names):
+        for b in names[i + 1:]:
+            if grads[a] is not None and grads[b] is not None and grads[a].size and grads[b].size and np.shares_memory(grads[a], grads[b]):
+                gshare.append([a, b])
+    data_grad = [n for n in names if grads[n] is not None and any(np.shares_memory(grads[n], env.t[m].data) for m in names)]
+    return {"share": share, "base": base, "grad_share": gshare, "grad_aliases_data": data_grad}
 
 
 def run_case(case):
@@ -284,6 +297,18 @@ def run_case(case):
                     env.t[s["t"]].backward()
                 elif "scalar" in seed:
                     env.t[s["t"]].backward(seed["scalar"])
+                elif seed.get("non_owning"):
+                    # the seed is a strided VIEW of a larger array owned by the caller
+                    arr = make_array(seed)
+                    big = np.zeros(arr.shape[:-1] + (2 * arr.shape[-1],), dtype=arr.dtype) if arr.ndim else np.zeros(2, dtype=arr.dtype)
+                    if arr.ndim:
+                        big[..., ::2] = arr
+                        sv = big[..., ::2]
+                    else:
+                        big[0] = arr
+                        sv = big[0:1].reshape(())
+                    env.keep.append(big)
+                    env.t[s["t"]].backward(sv)
                 else:
                     env.t[s["t"]].backward(make_array(seed))
             elif k == "clear":
